@@ -33,7 +33,7 @@ func (v *Verifier) leafCompsS(prefix string, t types.Type) []leafComp {
 
 func (r *funcRun) entryState() *State {
 	st := &State{declared: map[string]bool{}, heap: map[string]string{}, compSig: map[string]string{}, lazyTag: map[string]string{},
-		regs: map[string]Value{}, names: map[string]Value{}, ntypes: map[string]types.Type{}, loops: map[int]bool{}, fresh: &r.fresh, sigOf: r.v.sigOfComp, rangeOf: r.v.rangeOfComp}
+		regs: map[string]Value{}, names: map[string]Value{}, snaps: map[string]*HeapSnap{}, ntypes: map[string]types.Type{}, loops: map[int]bool{}, fresh: &r.fresh, sigOf: r.v.sigOfComp, rangeOf: r.v.rangeOfComp}
 	st.declare("alloc0", "Int")
 	st.alloc = Term{S: "alloc0", Sort: SInt}
 	st.assume(Le(IntLit(0), st.alloc))
@@ -419,9 +419,28 @@ func (r *funcRun) call(st *State, cc *ssa.CallCommon, instr ssa.Instruction, res
 			panic(unsupported(fmt.Sprintf("call of %s: cannot name arguments (%d names, %d args)", callee, len(names), len(args))))
 		}
 	}
-	for k, h := range r.c.CallHints[callee] {
-		r.emitGoal(st, "call-hint", "="+callee+"."+clauseID(h, k), h.Props, h.Expr, nil, r.old, r.baseVars(st), h.Src+" at "+r.pos(instr))
-		st.assume(r.evalBool(st, h.Expr, r.old, nil, h.Src))
+	hintKeys := []string{callee}
+	for hb, ord := range r.loopOrd {
+		if blk := instr.Block(); blk != nil {
+			// in the loop body, or in an early exit of the body (dominated by a body block)
+			body := loopBlocks(r.fn.Blocks[hb])
+			_, in := body[blk.Index]
+			for bi, bb := range body {
+				if bi != hb && bb.Dominates(blk) {
+					in = true
+				}
+			}
+			if in {
+				hintKeys = append(hintKeys, fmt.Sprintf("%s@loop%d", callee, ord))
+			}
+		}
+	}
+	sort.Strings(hintKeys)
+	for _, hk := range hintKeys {
+		for k, h := range r.c.CallHints[hk] {
+			r.emitGoal(st, "call-hint", "="+hk+"."+clauseID(h, k), h.Props, h.Expr, nil, r.old, r.baseVars(st), h.Src+" at "+r.pos(instr))
+			st.assume(r.evalBool(st, h.Expr, r.old, nil, h.Src))
+		}
 	}
 	return r.applyContract(st, c, callee, names, args, ptypes, sig, instr, resT)
 }
@@ -547,6 +566,10 @@ func (r *funcRun) applyContract(st *State, c *Contract, callee string, names []s
 		st.ntypes[shortName(callee)+"_"+g.Name] = t
 	}
 	for _, e := range c.Ensures {
+		ctx.src = e.Src
+		st.assume(ctx.boolExpr(e.Expr))
+	}
+	for _, e := range c.Lemmas {
 		ctx.src = e.Src
 		st.assume(ctx.boolExpr(e.Expr))
 	}
